@@ -26,18 +26,24 @@ theorem fromOrigin_origin (size o spacing : Vec d K) (direction : Mat d K) (ac :
 theorem fromOrigin_affine (size o spacing : Vec d K) (direction : Mat d K) (ac : Bool) :
     (Grid.fromOrigin size o spacing direction ac).affine = direction.mul (Mat.diag spacing) := rfl
 
-/-- as coded: control index `j` of `cubic_bspline_control_point_grid(grid, s)` lies at image
-    index `j − s` (the spacing of the returned grid is the image spacing, not `s`·spacing). -/
+theorem affine_mulVec_eq (direction : Mat d K) (sp x : Vec d K) :
+    (direction.mul (Mat.diag sp)).mulVec x = direction.mulVec (fun i => sp i * x i) := by
+  rw [mul_mulVec, diag_mulVec']
+
+/-- control index `j` of `cubic_bspline_control_point_grid(grid, s)` lies at image index
+    `(j − 1)·s`: one control point before the first sample, spacing `s` samples. -/
 theorem controlPointGrid_index_to_world (g : Grid d K) (m s : Fin d → Nat) (j : Vec d K) :
     (controlPointGrid g m s).applyTransform .grid .world false j
-      = g.applyTransform .grid .world false (fun i => j i - ((s i : Nat) : K)) := by
+      = g.applyTransform .grid .world false (fun i => (j i - 1) * ((s i : Nat) : K)) := by
   rw [index_to_world_eq, index_to_world_eq]
   unfold controlPointGrid
   rw [fromOrigin_origin, fromOrigin_affine, index_to_world_eq]
-  have : (fun i => j i - ((s i : Nat) : K)) = j + (fun i => -(((s i : Nat) : K))) := by
-    funext i; simp [sub_eq_add_neg]
-  rw [this]
-  simp only [Grid.affine, mulVec_eq, Matrix.mulVec_add]
-  abel
+  simp only [Grid.affine, affine_mulVec_eq]
+  simp only [mulVec_eq]
+  rw [← add_assoc, ← Matrix.mulVec_add]
+  congr 2
+  funext i
+  simp only [Pi.add_apply]
+  ring
 
 end Deepali
